@@ -72,6 +72,11 @@ Proof.
     + rewrite (IH _ _ _ _ H i). simpl. tauto.
 Qed.
 
+(* Do(n, f) with n >= work_do_min_n starts work_do_spawned n goroutines running runner() and runs
+   runner() itself: n runner threads in all, which is what the model's [n] stands for *)
+Lemma runner_count n : work_do_min_n <= n -> work_do_spawned n + work_do_inline_runners = n /\ work_running_is_n = true.
+Proof. unfold work_do_min_n, work_do_spawned, work_do_inline_runners, work_running_is_n. lia. Qed.
+
 Section Proofs.
 Variable n : nat.
 Variable children : item -> list item.
@@ -482,6 +487,17 @@ Proof.
   destruct (existsb is_parked (set_nth t (Run i (S j)) (pcs s))) eqn:Ex; [|exists 0; eauto].
   apply existsb_exists in Ex as (q & Hq & Hqp). apply In_nth_error in Hq as [k Hk].
   destruct q; try discriminate. exists k. rewrite Hk. eauto.
+Qed.
+
+(* Do itself is thread 0 *)
+Corollary do_returns s : reachable s -> nth_error (pcs s) 0 = Some Done ->
+  todo s = [] /\ cnt is_run (pcs s) = 0 /\ (forall i, reach i <-> In i (finished s)) /\ NoDup (finished s) /\
+  (forall t p, nth_error (pcs s) t = Some p -> p = Woken \/ p = Done).
+Proof.
+  intros Hr H0. destruct (do_returns_when_done s 0 Hr H0) as (Htd & Hrun & Hpk & Htop & Hre & Hnd).
+  repeat split; auto; try apply Hre.
+  intros t p Hn. pose proof (cnt_zero _ _ _ _ Hrun Hn). pose proof (cnt_zero _ _ _ _ Hpk Hn).
+  pose proof (cnt_zero _ _ _ _ Htop Hn). destruct p; simpl in *; auto; discriminate.
 Qed.
 
 (* no deadlock, no lost wake-up: unless every runner has returned, some thread has a step *)
